@@ -91,6 +91,10 @@ class Scenario(object):
                 break
             retry += 1
         self.sig = sigs.ref_encode("string", rs[0], rs[1], n)
+        # a forged signature for the same key and message: s replaced by the first s + j that the REFERENCE verifier rejects (on a tiny
+        # order s + 1 can be n - s, the valid twin: a forgery picked without asking the oracle raised a false alarm, see DESIGN.md section 9)
+        sb = next(j for j in range(1, n) if (rs[1] + j) % n and not ecdsa_ref.verify(dom, self.Qk, e, rs[0], (rs[1] + j) % n))
+        self.badsig = sigs.ref_encode("string", rs[0], (rs[1] + sb) % n, n)
         # the same key and message under another hash (explicit hashfunc argument next to the key's default)
         self.hf2 = hashlib.sha512
         dg2 = self.hf2(self.msg).digest()
@@ -310,12 +314,10 @@ def perform(sh, sc, op, arg, arg2):
     if op == "verify":
         return sh["vk"].verify(sc.sig, sc.msg, hashfunc=sc.hf)
     if op == "verify_bad":
-        # the genuine signature of the scenario with s replaced by s + 1 (or 1): in range, well-formed, wrong
+        # the scenario's forged signature (in range, well-formed, rejected by the reference verifier)
         import ecdsa as _e
-        L_ = len(sc.sig) // 2
-        s_bad = (int.from_bytes(sc.sig[L_:], "big") + 1) % sc.dom.n or 1
         try:
-            return sh["vk"].verify(sc.sig[:L_] + s_bad.to_bytes(L_, "big"), sc.msg, hashfunc=sc.hf)
+            return sh["vk"].verify(sc.badsig, sc.msg, hashfunc=sc.hf)
         except _e.BadSignatureError:
             return False
     if op in ("precompute", "precompute_lazy"):
